@@ -740,6 +740,10 @@ func Walk(n Node, visit func(n Node) bool) {
 			if visit(n) {
 				stack = append(stack, n.X)
 			}
+		case *ParenExpr:
+			if visit(n) {
+				stack = append(stack, n.X)
+			}
 		case *InExpr:
 			if visit(n) {
 				for i := len(n.Vals) - 1; i >= 0; i-- {
